@@ -1,5 +1,6 @@
 import VermouthModel.C18
 import VermouthModel.C18_Map
+import VermouthModel.C18_Order
 import VermouthModel.C18_Write
 import VermouthModel.C18_MapWrite
 open Proto C18
@@ -150,6 +151,16 @@ def handle (_ : Unit) (toks : List Tok) : Unit × String :=
         pure ("vs " ++ encList (vs.map encVS) ++ " inter "
               ++ encList ((vsInteractions vs).map fun p => encList [encInt p.1, encInt p.2])
               ++ " go " ++ encOutcome o)
+    | [Tok.str "goord", pre, bb, vsn, atoms, edges, contacts, lp, lq, up, uq, sep, orders] => do
+        let P : Params := { pre := ← pre.str?, backbone := ← bb.str?,
+                            low := { p := ← lp.int?, q := ← lq.nat? }, up := { p := ← up.int?, q := ← uq.nat? },
+                            sep := ← sep.int? }
+        let as ← (← atoms.list?).mapM atomOf
+        let es ← (← edges.list?).mapM edgeOf
+        let cs ← (← contacts.list?).mapM contactOf
+        let os ← (← orders.list?).mapM ints?
+        let (vs, o) := goPipelineOrd P (← vsn.str?) as es cs os
+        pure (encJob vs o)
     | [Tok.str "gohist", reset, pre, bb, vsn, lp, lq, up, uq, sep, jobs] => do
         let P : Params := { pre := ← pre.str?, backbone := ← bb.str?,
                             low := { p := ← lp.int?, q := ← lq.nat? }, up := { p := ← up.int?, q := ← uq.nat? },
